@@ -35,8 +35,33 @@ def ptr_exprs(depth):
     return allp
 
 
+def straightline_pointer_programs(max_ops):
+    """bounded-exhaustive: two pointer locals, every initialisation pair, every sequence of <= max_ops
+    assignments among {named object, copy of the other local, .next of a named object / of a local,
+    ternary-selected object}, then a read through either local.  Exercises the per-block tracking of which
+    local still designates a statically known object."""
+    a, b, c = ('obj', 'a'), ('obj', 'b'), ('obj', 'c')
+    lp, lq = ('local', 'p'), ('local', 'q')
+    tern = ('tern', P('a', 'flag'), b, c)
+    init_q = [a, P('b', 'next'), tern]
+    init_p = [a, lq, P('b', 'next')]
+    ops = [('p', a), ('p', b), ('p', lq), ('q', lp), ('q', c), ('p', P('a', 'next')), ('q', P('b', 'next')),
+           ('p', ('prop', lq, 'next')), ('q', ('prop', lp, 'next')), ('q', tern)]
+    out = []
+    for iq in init_q:
+        for ip in init_p:
+            for n in range(0, max_ops + 1):
+                for seq in itertools.product(ops, repeat=n):
+                    for rd in ('p', 'q'):
+                        body = [('let', 'let', 'q', None, iq), ('let', 'let', 'p', None, ip)]
+                        body += [('assign', v, e) for v, e in seq]
+                        body.append(('return', ('prop', ('local', rd), 'ival')))
+                        out.append(D.Program('binding', 'int', body, tag='ptr-straightline'))
+    return out
+
+
 def pointer_programs(tier, rng):
-    progs = []
+    progs = straightline_pointer_programs(3 if tier == 'thorough' else 2)
     I = lambda v: ('lit', 'int', v)
     reads = [('ival', 'int'), ('flag', 'bool'), ('sval', 'QString')]
     pes = ptr_exprs(3 if tier == 'thorough' else 2)
